@@ -131,6 +131,11 @@ fn kind_code(k: &TokenKind) -> u64 {
         TokenKind::Newline(1) => 3,
         TokenKind::Newline(2) => 4,
         TokenKind::Word(_) => 5,
+        // the four punctuation kinds the JavaDoc / JSDoc passes look at (Model/C04JavaDoc.v)
+        TokenKind::Punctuation(harper_core::Punctuation::At) => 61,
+        TokenKind::Punctuation(harper_core::Punctuation::Star) => 62,
+        TokenKind::Punctuation(harper_core::Punctuation::OpenCurly) => 63,
+        TokenKind::Punctuation(harper_core::Punctuation::CloseCurly) => 64,
         TokenKind::Punctuation(_) => 6,
         TokenKind::Number(_) => 7,
         TokenKind::Decade => 8,
@@ -386,22 +391,11 @@ fn corr_lines(rep: &mut Report, which: char, text: &str, inner: &str) {
         _ => comment_parsers::Go::new(rec.clone()).parse(&chars),
     });
     let (ent, _seen) = entries(&log);
+    // 'J' is the whole JsDoc::parse (mark_inline_tags and the block-tag pass are in the model: C04JavaDoc.v)
     let line = match &imp {
-        Ok(t) => {
-            if which == 'J' {
-                // the model leaves kinds alone; JsDoc only ever rewrites kinds to Unlintable: compare spans and
-                // kinds with Unlintable mapped back through the recorded inner tokens is not possible, so the
-                // case is only emitted when no '{' or '@' occurs (then the tag passes are the identity)
-                toks_line(t)
-            } else {
-                toks_line(t)
-            }
-        }
+        Ok(t) => toks_line(t),
         Err(_) => "P".into(),
     };
-    if which == 'J' && (text.contains('{') || text.contains('@')) {
-        return;
-    }
     rep.case(&format!("{which} {}{}", cps_str(text), ent), line.trim());
     rep.count(&format!("lines:{which}:{inner}:{}", if imp.is_ok() { "ok" } else { "panic" }));
     // without_initiators (private) observed through a one-line Unit parse with an identity inner parser
@@ -422,6 +416,136 @@ fn corr_lines(rep: &mut Report, which: char, text: &str, inner: &str) {
             }
         }
     }
+}
+
+/// the span `without_initiators` computes (private fn of comment_parsers/mod.rs; a disagreement of this replica
+/// shows as a model/implementation difference: the model looks the content up in the recorded table)
+fn without_initiators_replica(source: &[char]) -> (usize, usize) {
+    let is_cc = |c: char| matches!(c, '#' | '-' | '/' | '*' | '!');
+    let start = source.iter().position(|c| !is_cc(*c) && !c.is_whitespace()).unwrap_or(source.len());
+    let end = source.len() - source.iter().rev().position(|c| !is_cc(*c) && !c.is_whitespace()).unwrap_or(0);
+    (start, end.max(start))
+}
+
+/// JavaDoc::parse (its HtmlParser is a private field: the table entry for the model is HtmlParser on the content
+/// without initiators) vs javadoc_parse of Model/C04JavaDoc.v; oracle: every token inside the comment without
+/// initiators, html tokens that are not leader Stars/Spaces all present at their place
+fn corr_javadoc(rep: &mut Report, text: &str) {
+    rep.eval();
+    let chars: Vec<char> = text.chars().collect();
+    let (a, b) = without_initiators_replica(&chars);
+    let content: Vec<char> = chars[a..b].to_vec();
+    let html = guarded(|| harper_html::HtmlParser::default().parse(&content));
+    let Ok(html) = html else {
+        rep.count("javadoc:html_parser_panicked");
+        return;
+    };
+    let imp = guarded(|| comment_parsers::JavaDoc::default().parse(&chars));
+    let mut ent = String::from(" | ");
+    ent.push_str(&cps(&content));
+    ent.push_str(" ;");
+    for k in &html {
+        ent.push_str(&format!(" {} {} {}", k.span.start, k.span.end, kind_code(&k.kind)));
+    }
+    let line = match &imp {
+        Ok(t) => toks_line(t),
+        Err(_) => "P".into(),
+    };
+    rep.case(&format!("V {}{}", cps_str(text), ent), line.trim());
+    rep.monitor("javadoc_html_contract_checked", 1);
+    let inb = html.iter().all(|k| k.span.start <= k.span.end && k.span.end <= content.len());
+    if !inb {
+        rep.monitor("inner_in_bounds_violated", 1);
+        fail_limited(rep, "contract_inner_bounds", "HtmlParser returned a token outside the slice JavaDoc gave it".into(), json!({"kind":"javadoc","text":text}));
+    }
+    match &imp {
+        Err(m) => fail_limited(rep, "javadoc_panic", format!("JavaDoc::parse panicked: {m} at {}", last_panic_location()), json!({"kind":"javadoc","text":text})),
+        Ok(t) => {
+            // C04_javadoc_offsets on the implementation: every token lies inside [a, b)
+            if inb && t.iter().any(|k| k.span.start < a || k.span.end > b || k.span.start > k.span.end) {
+                fail_limited(rep, "token_out_of_bounds", format!("JavaDoc: a token lies outside the comment without initiators [{a},{b})"), json!({"kind":"javadoc","text":text}));
+            }
+            // C04_javadoc_exact / C04_javadoc_keeps on the implementation: the spans are those of the html tokens minus
+            // the Star / Space runs that follow a Newline, shifted by a (kinds are compared by the correspondence)
+            let mut expect: Vec<(usize, usize)> = vec![];
+            let mut after_nl = false;
+            for k in &html {
+                let removable = matches!(k.kind, TokenKind::Space(_) | TokenKind::Punctuation(harper_core::Punctuation::Star));
+                if after_nl && removable {
+                    continue;
+                }
+                after_nl = matches!(k.kind, TokenKind::Newline(_));
+                expect.push((k.span.start + a, k.span.end + a));
+            }
+            let got: Vec<(usize, usize)> = t.iter().map(|k| (k.span.start, k.span.end)).collect();
+            if got != expect {
+                let i = got.iter().zip(expect.iter()).position(|(x, y)| x != y).unwrap_or(got.len().min(expect.len()));
+                fail_limited(rep, "javadoc_token_lost_or_moved", format!("JavaDoc: token #{i} is {:?}, the html parse minus leader stars/spaces shifted by {a} has {:?}", got.get(i), expect.get(i)), json!({"kind":"javadoc","text":text}));
+            }
+            let n_unl = t.iter().filter(|k| matches!(k.kind, TokenKind::Unlintable)).count();
+            rep.count(&format!("javadoc:{}", if n_unl > 0 { "tags_marked" } else if t.len() < html.len() { "leaders_removed" } else { "plain" }));
+            if n_unl > 0 && text.len() != chars.len() {
+                rep.nontrivial(&("javadoc", text));
+            }
+        }
+    }
+}
+
+/// a small source file whose comments mention snake_case / kebab-ish identifiers that the code defines (so that
+/// create_ident_dict knows them and CollapseIdentifiers merges them), multi-byte text before and between
+fn ident_file(r: &mut Rng) -> (String, String) {
+    let (fe, decl, lead): (&str, &str, &str) = *r.pick(&[
+        ("c:rust", "let {} = 1;", "// "), ("c:javascript", "let {} = 1;", "// "), ("c:typescript", "let {} = 1;", "// "),
+        ("c:python", "{} = 1", "# "), ("c:ruby", "{} = 1", "# "), ("c:lua", "{} = 1", "-- "), ("c:c", "int {} = 1;", "// "),
+        ("c:cpp", "int {} = 1;", "// "), ("c:go", "var {} = 1", "// "), ("c:java", "int {} = 1;", "// "), ("c:shellscript", "{}=1", "# "),
+    ]);
+    let ids = ["qq_zz", "river_stone_xq", "xq_1", "a_b", "zq_river", "Qz_Xv_w"];
+    let mut s = String::new();
+    if r.chance(1, 2) {
+        s.push_str(lead);
+        s.push_str(r.s(&["ключ é 値 😀", "naïve café", "値段"]));
+        s.push('\n');
+    }
+    let mut used = vec![];
+    for _ in 0..r.range(1, 4) {
+        let id = r.s(&ids);
+        used.push(id);
+        s.push_str(&decl.replace("{}", id));
+        s.push('\n');
+    }
+    for _ in 0..r.range(1, 4) {
+        s.push_str(lead);
+        for _ in 0..r.range(1, 5) {
+            if r.chance(1, 2) {
+                s.push_str(*r.pick(&used[..]));
+            } else {
+                s.push_str(r.s(&["the", "river", "uses", "é", "stone_unknown", "a-b", "qq_", "_zz", "qq_zz_river"]));
+            }
+            s.push_str(r.s(&[" ", " ", ", ", ". ", "  "]));
+        }
+        s.push('\n');
+    }
+    (fe.to_string(), s)
+}
+
+fn corr_wrappers(rep: &mut Report, fe: &str, text: &str, dict: &Arc<FstDictionary>) {
+    rep.eval();
+    let chars: Vec<char> = text.chars().collect();
+    wrappers_oracle(rep, fe, &chars, dict, &json!({"kind":"wrap","fe":fe,"text":text}));
+}
+
+fn javadoc_text(r: &mut Rng) -> String {
+    let mut s = String::from(*r.pick(&["/**", "/** ", "/*", "/**\n * ", "", "/// "]));
+    for _ in 0..r.range(1, 10) {
+        s.push_str(r.s(&[
+            "river ", "stone", " ", "  ", "\n * ", "\n", "\n   ", "\n *", "@param ", "@return ", "@", "@ ", "@x y", "xq_1 ", "{@link ", "{@code ", "{@", "{", "}", "} ",
+            "Foo#bar", "<p>", "</p>", "<b>", "é ", "値 ", "😀", "*", "* ", ".", ", ", "@since 1.2 ", "@throws IOException when ", "\r\n * ", "{@link Map<K, V>} ", "@@", "@param\n * name ",
+        ]));
+    }
+    if r.chance(2, 3) {
+        s.push_str(r.s(&["*/", " */", "\n */", ""]));
+    }
+    s
 }
 
 fn corr_lhs(rep: &mut Report, text: &str) {
@@ -664,12 +788,68 @@ fn doc_json(b: &Built) -> Value {
            "forbidden": b.forbidden.iter().map(|(s,e,l)| json!([s,e,l])).collect::<Vec<_>>()})
 }
 
+/// C04_masked_ie_offsets / C04_masked_ci_offsets on the implementation: the tokens of `fe+ie` are a sub-sequence of the
+/// tokens of `fe` (span and kind); every token of `fe+ci` is a token of `fe` or a Word from the start of a Word of
+/// `fe` to the end of a later Word of `fe`
+fn wrappers_oracle(rep: &mut Report, fe_base: &str, chars: &[char], dict: &Arc<FstDictionary>, inp: &Value) {
+    let r = guarded(|| {
+        let base = frontends::make_parser(fe_base, chars, dict).parse(chars);
+        let ie = frontends::make_parser(&format!("{fe_base}+ie"), chars, dict).parse(chars);
+        let ci = frontends::make_parser(&format!("{fe_base}+ci"), chars, dict).parse(chars);
+        (base, ie, ci)
+    });
+    let Ok((base, ie, ci)) = r else {
+        fail_limited(rep, "panic", format!("{fe_base}: +ie / +ci parse panicked at {}", last_panic_location()), inp.clone());
+        return;
+    };
+    rep.monitor("wrapper_compositions_checked", 1);
+    let key = |t: &Token| (t.span.start, t.span.end, kind_code(&t.kind));
+    let mut i = 0usize;
+    for t in &ie {
+        while i < base.len() && key(&base[i]) != key(t) {
+            i += 1;
+        }
+        if i == base.len() {
+            fail_limited(rep, &format!("ie_not_subsequence:{fe_base}"), format!("{fe_base}+ie: token {:?} {} is not (in order) a token of the masked parse", t.span, kind_code(&t.kind)), inp.clone());
+            return;
+        }
+        i += 1;
+    }
+    if ie.len() < base.len() {
+        rep.count("ie_dropped_a_chunk");
+    }
+    let mut i = 0usize;
+    for t in &ci {
+        if i < base.len() && key(&base[i]) == key(t) {
+            i += 1;
+            continue;
+        }
+        let merged = matches!(t.kind, TokenKind::Word(_))
+            && i < base.len()
+            && matches!(base[i].kind, TokenKind::Word(_))
+            && base[i].span.start == t.span.start
+            && base[i + 1..].iter().any(|u| matches!(u.kind, TokenKind::Word(_)) && u.span.end == t.span.end);
+        if !merged {
+            fail_limited(rep, &format!("ci_not_grouping:{fe_base}"), format!("{fe_base}+ci: token {:?} {} is neither the next token of the masked parse nor a Word from the start of its next Word to the end of a later Word", t.span, kind_code(&t.kind)), inp.clone());
+            return;
+        }
+        while i < base.len() && base[i].span.end != t.span.end {
+            i += 1;
+        }
+        i += 1;
+        rep.count("ci_merged_an_identifier");
+    }
+}
+
 fn oracle(rep: &mut Report, b: &Built, dict: &Arc<FstDictionary>) {
     rep.eval();
     let chars: Vec<char> = b.text.chars().collect();
     let fe_base = b.fe.clone();
     rep.count(&format!("fe:{}", fe_base));
     let inp = doc_json(b);
+    if fe_base.starts_with("c:") || fe_base == "lhaskell" || fe_base == "html" {
+        wrappers_oracle(rep, &fe_base, &chars, dict, &inp);
+    }
     let vocab = c04_gen::vocab_in_nonprose(&b.text, &b.forbidden);
     // raw parser tokens and the tokens of the Document (what the rules see); `+ci` as harper-ls wraps comment parsers
     let variants: Vec<String> = if fe_base.starts_with("c:") || fe_base == "lhaskell" { vec![fe_base.clone(), format!("{fe_base}+ci")] } else { vec![fe_base.clone()] };
@@ -1127,6 +1307,14 @@ fn exhaustive(rep: &mut Report) {
         }
     });
     rep.extra.insert("exhaustive_go_directive_strings_le6".into(), json!(n));
+    // JavaDoc / JsDoc tag passes: all strings of <= 6 over @ { } word space newline star
+    let mut n = 0u64;
+    words(&["@", "a", " ", "{", "}", "\n", "*"], 6, &mut |s| {
+        corr_javadoc(rep, s);
+        corr_lines(rep, 'J', s, "plain");
+        n += 1;
+    });
+    rep.extra.insert("exhaustive_javadoc_strings_le6".into(), json!(n));
     // LHS masker: all sequences of <= 5 lines over a 7-line alphabet, with and without trailing newline
     let mut n = 0u64;
     words(&["a\n", "\n", "> b\n", ">\n", "\\begin{code}\n", "\\end{code}\n", " \n"], 5, &mut |s| {
@@ -1212,6 +1400,11 @@ pub fn replay_input(rep: &mut Report, v: &Value, dict: &Arc<FstDictionary>) {
             corr_lines(rep, w, &text, v["inner"].as_str().unwrap_or("synth"));
         }
         "lhs" => corr_lhs(rep, &text),
+        "wrap" => corr_wrappers(rep, v["fe"].as_str().unwrap_or("c:rust"), &text, dict),
+        "javadoc" => {
+            corr_javadoc(rep, &text);
+            corr_lines(rep, 'J', &text, "plain");
+        }
         "md" => corr_markdown(rep, &text, v["ilt"].as_bool().unwrap_or(false)),
         "cursor" => {
             let bytes: Vec<usize> = v["bytes"].as_array().map(|a| a.iter().map(|x| x.as_u64().unwrap_or(0) as usize).collect()).unwrap_or_default();
@@ -1291,7 +1484,7 @@ fn monitor_whitespace(rep: &mut Report) {
 
 pub fn run(a: &Args, corpus: &[Value]) {
     let mut rep = Report::new(&a.out);
-    rep.rule = "corpus; UTF-8 maps on random multi-byte strings (every byte offset); create_mask of TreeSitterMasker (HTML) / CommentMasker (22 languages) vs the model run on the node list dumped with the same grammar; parsers::Mask::parse with fixed masks (well-formed + malformed stream) and recording inner parsers (PlainEnglish, Markdown, synthetic, out-of-contract synthetic); Unit/JsDoc/Go line loops, LHS masker, ignore condition, git-commit cut; statefulness: long-lived parser/masker instances (generated files, editing sessions with multi-byte heads and equal-length comment<->code replacements) vs fresh instances; search: files constructed per front-end from prose (vocabulary A) and non-prose segments (code, string literals, inline code, fences, math, tags, URLs, ignore-marked comments; multi-byte vocabulary B), random indentation, comment styles, LF/CRLF. non-trivial = distinct file with >=1 prose word, >=1 non-prose segment and multi-byte content".into();
+    rep.rule = "corpus; UTF-8 maps on random multi-byte strings (every byte offset); create_mask of TreeSitterMasker (HTML) / CommentMasker (22 languages) vs the model run on the node list dumped with the same grammar; parsers::Mask::parse with fixed masks (well-formed + malformed stream) and recording inner parsers (PlainEnglish, Markdown, synthetic, out-of-contract synthetic); Unit/JsDoc/Go line loops, the whole JsDoc::parse and JavaDoc::parse (inline tags, block tag, @tag window, leader removal; HtmlParser's tokens recorded), LHS masker, ignore condition, git-commit cut; statefulness: long-lived parser/masker instances (generated files, editing sessions with multi-byte heads and equal-length comment<->code replacements) vs fresh instances; search: files constructed per front-end from prose (vocabulary A) and non-prose segments (code, string literals, inline code, fences, math, tags, URLs, ignore-marked comments; multi-byte vocabulary B), random indentation, comment styles, LF/CRLF. non-trivial = distinct file with >=1 prose word, >=1 non-prose segment and multi-byte content".into();
     let dict = FstDictionary::curated();
     for c in corpus {
         replay_input(&mut rep, c, &dict);
@@ -1327,6 +1520,17 @@ pub fn run(a: &Args, corpus: &[Value]) {
             corr_lines(&mut rep, w, &t, inner);
         }
         corr_misc(&mut rep, &t);
+    }
+    // F'. JavaDoc::parse and the whole JsDoc::parse (inline tags, block tags, the @tag window, leader removal)
+    for _ in 0..a.scale(1500, 20000) {
+        let t = javadoc_text(&mut r);
+        corr_javadoc(&mut rep, &t);
+        corr_lines(&mut rep, 'J', &t, r.s(&["plain", "plain", "markdown"]));
+    }
+    // E'. '+ie' / '+ci' over masked front-ends: files whose comments mention identifiers the code defines
+    for _ in 0..a.scale(400, 5000) {
+        let (fe, t) = ident_file(&mut r);
+        corr_wrappers(&mut rep, &fe, &t, &dict);
     }
     for _ in 0..a.scale(200, 3000) {
         let mut t = small_text(&mut r);
